@@ -42,6 +42,28 @@ def tokenize(src):
     return out
 
 
+def fn_text(src, name):
+    """the source text of `fn name ... { ... }` (only this part is tokenized, so the rest of the file may use any Rust)"""
+    m = re.search(r"\bfn\s+%s\b" % re.escape(name), src)
+    if not m:
+        raise Unsupported("function %s not found" % name)
+    i = src.index("{", m.end())
+    depth, k = 0, i
+    while k < len(src):
+        if src.startswith("//", k):
+            k = src.index("\n", k)
+            continue
+        c = src[k]
+        if c == "{":
+            depth += 1
+        elif c == "}":
+            depth -= 1
+            if depth == 0:
+                return src[m.start():k + 1]
+        k += 1
+    raise Unsupported("unbalanced braces in %s" % name)
+
+
 def find_fn(tokens, name):
     """return token slice [start,end) of `fn name ... { ... }`"""
     for i in range(len(tokens) - 1):
@@ -344,11 +366,10 @@ def coq_type(ty):
 
 def translate(src, fns, projections=None, opaque=None, rettypes=None):
     """fns: ordered list of function names (callees first)."""
-    toks = tokenize(src)
     out = []
     fnames = dict(rettypes or {})
     for name in fns:
-        sl = find_fn(toks, name)
+        sl = find_fn(tokenize(fn_text(src, name)), name)
         p = P(sl, fnames, projections or {}, opaque or {})
         n, params, ret, (body, bty) = p.parse_fn()
         fnames[n] = ret
